@@ -94,6 +94,7 @@ namespace ratio
     std::unordered_map<const atom *, smt::rational> dont_start, dont_end;   // the starting (ending) atoms which are not yet ready to start (end)..
     std::map<smt::inf_rational, std::unordered_set<atom *>> s_atms, e_atms; // for each pulse, the atoms starting/ending at that pulse..
     std::set<smt::inf_rational> pulses;                                     // all the pulses of the plan..
+    std::unordered_set<const atom *> started_atoms, ended_atoms;            // the atoms whose start (end) has already been dispatched..
     std::vector<executor_listener *> listeners;                             // the executor listeners..
   };
 
